@@ -34,6 +34,13 @@ def gen(rng, tier):
             # a long-lived barrier: the arrival counter crosses 2^32 during the run
             args.append((1 << 32) - rng.randrange(0, 2 * count + 1))
         cases.append({"args": args, "env": env})
+    # a barrier created for MANY more participants than ever arrive (count = fibers + 2^8, 2^16,
+    # 2^24, ...): nobody may pass; a count that lost its upper bits lets them through
+    for _ in range(n_cases(tier, 24, 200)):
+        nf = rng.choice([1, 2, 3, 4])
+        extra = rng.choice([1 << 8, 1 << 16, 1 << 16, 1 << 24, (1 << 31), (1 << 32) - 1 - nf, 5 << 16])
+        cases.append({"args": [rng.choice([1, 2, 3]), gen_script(rng, nf, rng.randrange(1, 3)), 0, extra],
+                      "env": sched_env(rng, budget=60000)})
     return cases
 
 
@@ -45,7 +52,7 @@ SPEC = {
                    # definitely never complete ("stranded: ..."); HANG is always a failure
                    "ok_status": ("OK", "BUDGET"),
                    "nontrivial": lambda s: s["hist"].get("xchg tail", 0) >= 1 and s["switches"] > 0}],
-        "rule": "cases = (script: count = 1-4 fibers each doing 1-6 rounds of fiber_barrier_wait on one barrier with optional yields between rounds, 1-3 kernel threads, scheduler kind rand/pct/freeze + seed) from VERIF_SEED; distinct = different (script, sha1 of access sequence); non-trivial = at least one waiter was enqueued and the kernel threads interleaved",
+        "rule": "cases = (a barrier announced for 2^8 .. 2^32-1 more participants than arrive, which nobody may pass; otherwise script: count = 1-4 fibers each doing 1-6 rounds of fiber_barrier_wait on one barrier with optional yields between rounds, 1-3 kernel threads, scheduler kind rand/pct/freeze + seed) from VERIF_SEED; distinct = different (script, sha1 of access sequence); non-trivial = at least one waiter was enqueued and the kernel threads interleaved",
         "trusted_base": [
             "waiter queue kept abstractly (ghost order + linked flags), validated against every logged access; its adequacy for all interleavings is C15 (Mpsc.pop_is_next_in_order / empty_justified)",
             "scheduler traffic on fiber state words is skipped here and covered by the runtime model (C01/C02)",
